@@ -1065,6 +1065,79 @@ func genTemplateProgram(r *rand.Rand) string {
 	return sb.String()
 }
 
+
+// the fixed enumeration of parameter expansions: every subject x every operator x argument forms that are
+// PRESENT in the source but expand to the empty string (unset variable, "", $(true), ...) or to something,
+// unquoted and inside double quotes. The seed only selects which slice the quick tier runs.
+const paramPrelude = "x=abcabc; e=; unset u; set -- ab bc ''; arr=(ab '' bc); sp=(a b c d); unset 'sp[1]'; declare -A m=([k]=ab [j]=); n=2\n"
+
+func paramOpPrograms() []string {
+	subjects := []string{"x", "e", "u", "@", "*", "arr[@]", "arr[*]", "arr[1]", "arr[9]", "sp[@]", "m[@]", "m[k]", "1", "3", "9", "#", "?", "u[@]", "x[0]"}
+	args := []string{"$u", "\"\"", "''", "$e", "\"$e\"", "$(true)", "${u}", "${u:-}", "`true`", "${arr[1]}", "$9", "${e}$u",
+		"a", "$x", "\"*\"", "*", "?", "#", "%", "\\#", "b*", "[a-c]", "$n", "#a", "%c", "#$u", "%\"\""}
+	args2 := []string{"y", "$u", "\"\"", "$x", ""}
+	one := []string{"#", "##", "%", "%%", "^", "^^", ",", ",,", ":", ":-", "-", ":=", "=", ":+", "+", ":?", "?", "/", "//", "/#", "/%"}
+	two := []string{"/", "//", "/#", "/%", ":"}
+	var exps []string
+	for _, sub := range subjects {
+		for _, a := range args {
+			for _, op := range one {
+				exps = append(exps, "${"+sub+op+a+"}")
+			}
+			for _, op := range two {
+				sep := "/"
+				if op == ":" {
+					sep = ":"
+				}
+				for _, b := range args2 {
+					exps = append(exps, "${"+sub+op+a+sep+b+"}")
+				}
+			}
+		}
+		// operators without an argument, and a missing pattern
+		for _, t := range []string{"/", "//", "/#", "/%", "#", "%", ":", "::", ":0:", "^", ",", "@Q", "@A", "@a", "@E", "@P", "@U", "@K"} {
+			exps = append(exps, "${"+sub+t+"}")
+		}
+	}
+	// keep the forms that parse (parsing only; a parser panic here is C06's business, not a verdict of this search)
+	parses := func(e string) (ok bool) {
+		defer func() {
+			if recover() != nil {
+				ok = false
+			}
+		}()
+		_, err := syntax.NewParser().Parse(strings.NewReader("echo "+e+" \""+e+"\"; [[ "+e+" == \""+e+"\" ]]"), "")
+		return err == nil
+	}
+	kept := exps[:0]
+	for _, e := range exps {
+		if parses(e) {
+			kept = append(kept, e)
+		}
+	}
+	exps = kept
+	var out []string
+	for i := 0; i+4 <= len(exps); i += 4 {
+		var sb strings.Builder
+		sb.WriteString(paramPrelude)
+		for k, e := range exps[i : i+4] {
+			// each in its own subshell: ${x:?...} on an unset subject exits the shell
+			switch (i/4 + k) % 4 {
+			case 0:
+				sb.WriteString("( echo " + e + " )\n")
+			case 1:
+				sb.WriteString("( echo \"" + e + "\" )\n")
+			case 2:
+				sb.WriteString("( for w in " + e + " \"" + e + "\"; do echo \"$w\"; done )\n")
+			default:
+				sb.WriteString("( y=" + e + "; z=\"pre${e}" + e + "post\"; [[ " + e + " == \"" + e + "\" ]] )\n")
+			}
+		}
+		out = append(out, sb.String())
+	}
+	return out
+}
+
 // program literals of interp/interp_test.go, extracted as data
 func corpus(repo string) []string {
 	fset := token.NewFileSet()
@@ -1208,6 +1281,17 @@ func search(o hx.Opts) {
 				jobs = append(jobs, job{stream: "mutation", lang: "bash", src: m})
 				nm++
 			}
+		}
+	}
+	// (c2) the fixed enumeration of parameter expansions with present-but-empty operator arguments
+	pops := paramOpPrograms()
+	for i, s := range pops {
+		if thorough || (uint64(i)+o.Seed)%5 == 0 {
+			l := "bash"
+			if i%7 == 3 {
+				l = "mksh"
+			}
+			jobs = append(jobs, job{stream: "paramop", lang: l, src: s})
 		}
 	}
 	// (d) interp.New option combinations and interp.Params arguments
